@@ -144,12 +144,12 @@ impl Prop for C15 {
     fn plan(tier: Tier) -> Plan {
         Plan {
             shards: tier.pick(4, 16),
-            cases_per_shard: tier.pick(1_500, 12_000),
+            cases_per_shard: tier.pick(1_500, 6_000),
             watchdog: Duration::from_secs(tier.pick(300, 3600)),
         }
     }
     fn strategy(tier: Tier) -> BoxedStrategy<Case> {
-        let max = tier.pick(300, 2000);
+        let max = tier.pick(300, 1200);
         let params = prop_oneof![
             6 => (0usize..6, 0..cq::TS.len()).prop_map(|(a, b)| QParams { n: [1, 2, 3, 5, 8, 32][a], t_ns: cq::TS[b] }),
             1 => cq::params_strategy(),
@@ -193,7 +193,7 @@ impl Prop for C15 {
                 max_len: 600,
                 seed,
                 seeds: crate::fuzz::random_seeds(seed, 24, 600),
-                max_time: 1200,
+                max_time: 600,
             },
             ev,
         ));
